@@ -63,22 +63,48 @@ Definition setup_names (name : list Z) : list Z * list Z :=
 Definition allowed_input (name : list Z) : bool :=
   zlist_eqb (suffix name) s_rtdc || zlist_eqb (suffix name) s_tdms.
 
-(* setup_task_paths as a whole, for one requested output name and the names
-   of the input files (same directory): after the suffix correction the
-   output path must not be one of the inputs - the task refuses to run
-   (ValueError) - otherwise the output and the temporary name are returned;
+(* setup_task_paths as a whole.  A path is (directory, file name) with the
+   directory *resolved* (the code compares `Path.resolve()`d paths: relative
+   paths, "./x", "a/../x" and symlinked directories denote the directory they
+   resolve to).  After the suffix correction neither the output path nor its
+   temporary path may be one of the inputs - the task refuses to run
+   (ValueError) - otherwise the output and the temporary path are returned;
    these are the only two paths setup unlinks. *)
+Definition fpath : Type := (Z * list Z)%type.
+
+Definition fpath_eqb (a b : fpath) : bool :=
+  (fst a =? fst b) && zlist_eqb (snd a) (snd b).
+
+Definition setup_paths_at (inputs : list fpath) (d : Z) (name : list Z)
+  : option (fpath * fpath) :=
+  let o := (d, normalize_out name) in
+  let t := (d, temp_of (normalize_out name)) in
+  if existsb (fpath_eqb o) inputs || existsb (fpath_eqb t) inputs
+  then None else Some (o, t).
+
+(* one directory *)
 Definition setup_paths (inputs : list (list Z)) (name : list Z)
   : option (list Z * list Z) :=
-  let o := normalize_out name in
-  if existsb (zlist_eqb o) inputs then None else Some (o, temp_of o).
-
-(* flat result: [-2] when refused, else out ++ [-1] ++ temp *)
-Definition setup_paths_flat (q : list Z * list Z) : list Z :=
-  match setup_paths [fst q] (snd q) with
-  | None => [-2]
-  | Some (o, t) => o ++ [-1] ++ t
+  match setup_paths_at (map (fun n => (0, n)) inputs) 0 name with
+  | None => None
+  | Some (o, t) => Some (snd o, snd t)
   end.
+
+(* flat result: [-2] when refused, else out ++ [-1] ++ temp;
+   q = ((input dir, input name), (output dir, requested name)) *)
+Definition setup_at_flat (q : fpath * fpath) : list Z :=
+  match setup_paths_at [fst q] (fst (snd q)) (snd (snd q)) with
+  | None => [-2]
+  | Some (o, t) => snd o ++ [-1] ++ snd t
+  end.
+
+Definition setup_paths_flat (q : list Z * list Z) : list Z :=
+  setup_at_flat ((0, fst q), (0, snd q)).
+
+(* split: <stem>_<NNNN>.rtdc, where the input name is <stem><suffix> *)
+Definition underscore : Z := 95.
+Definition split_out (stem digits : list Z) : list Z :=
+  stem ++ [underscore] ++ digits ++ s_rtdc.
 
 (* flat result for the correspondence check: out ++ [-1] ++ temp *)
 Definition setup_flat (name : list Z) : list Z :=
